@@ -140,12 +140,14 @@ theorem treepp_step_partial {fixed : Bool} {tm tm' : TM} {s : Sel} {fromP : Nat}
   exact ⟨g1.inv, g1.step.link, hle⟩
 
 /-- **import_remap** (`import_triggers`, default index; an explicit index is this followed by `move_triggers` of the new
-ids): existing triggers untouched, imported copies appended with id = position, display order reset to the identity;
+ids): existing triggers untouched, imported copies appended with id = position; the display order is reset to the
+identity by the pinned `+=` (`ext = false`) and left to the lazy getter by the repaired `extend` (`ext = true`, F5 of C09);
 a link between imported triggers points at the imported copy of its target (the last imported trigger with that old
 id), a link to a trigger that was not imported is reset to -1, an unset link stays unset. -/
-theorem import_remap {tm tm' : TM} {ts : List Trig} {news : List Nat} (h : importTriggers tm ts none = .ok (tm', news)) :
+theorem import_remap {ext : Bool} {tm tm' : TM} {ts : List Trig} {news : List Nat}
+    (h : importTriggers ext tm ts none = .ok (tm', news)) :
     tm'.trigs.take tm.trigs.length = tm.trigs ∧ tm'.trigs.length = tm.trigs.length + ts.length ∧
-    tm'.order = range (tm.trigs.length + ts.length) ∧
+    (ext = false → tm'.order = range (tm.trigs.length + ts.length)) ∧ (ext = true → tm'.order = tm.order) ∧
     ∀ (i : Nat) (t : Trig), ts[i]? = some t → ∃ c, tm'.trigs[tm.trigs.length + i]? = some c ∧
       c.tid = tm.trigs.length + i ∧ news[i]? = some c.uid ∧ c.effs.length = t.effs.length ∧
       ∀ (j : Nat) (e e' : Eff), t.effs[j]? = some e → c.effs[j]? = some e' →
